@@ -33,7 +33,7 @@ CHECKS = {
     "C13": {"units": [rapid("racex", "TestC13", 2500, 5000, 16, race=True, shrinktime="5s")]},
     "C14": {"units": [rapid("routinex", "TestC14Ctors", 400, 2000, 4), rapid("routinex", "TestC14Elapsed", 100, 400, 4), rapid("routinex", "TestC14Backoff", 1500, 5000, 8), rapid("routinex", "TestC14", 10000, 60000)]},
     "C06": {"units": [rapid("keyedx", "TestC06Keyed", 6000, 40000), rapid("keyedx", "TestC06RefCount", 6000, 40000)]},
-    "C07": {"units": [rapid("freex", "TestC07Free", 1000, 600, 16), rapid("keyedx", "TestC07", 8000, 50000), rapid("keyedx", "TestC07Retry", 300, 500, 4)]},
+    "C07": {"units": [rapid("freex", "TestC07Free", 1000, 600, 16), rapid("keyedx", "TestC07", 16000, 50000), rapid("keyedx", "TestC07Retry", 300, 500, 4)]},
     "C08": {"units": [rapid("freex", "TestC08Free", 1000, 600, 16), rapid("refcountx", "TestC08", 8000, 50000)]},
     "C09": {"units": [rapid("freex", "TestC09Free", 1000, 600, 16), rapid("refcountx", "TestC09", 8000, 50000)]},
     "C10": {"units": [rapid("refcountx", "TestC10", 12000, 60000)]},
